@@ -246,3 +246,209 @@ theorem getAt_eq_spec (snap t : Nat) (vs : List HVer) (h : TsDesc vs) : getAt sn
   rw [getAtGo_eq_find t _ hd, find_filter_head]
   have hf : TsDesc ((specKey { tombs := true } snap vs).filter (fun v => decide (v.ts ≤ t))) := tsDesc_filter _ _ hd
   simp only [fold_pick_eq_head _ hf]
+
+/-! ### backward scan -/
+
+theorem hRetainedGo_noHard : ∀ (l : List HVer), ∀ v ∈ hRetainedGo l, v.kind.isHard = false := by
+  intro l
+  induction l with
+  | nil => intro v hv; cases hv
+  | cons x xs ih =>
+    intro v hv
+    simp only [hRetainedGo] at hv
+    by_cases hx : x.kind.isHard = true
+    · simp [hx] at hv
+    · have hx' : x.kind.isHard = false := by simpa using hx
+      simp only [hx', Bool.false_eq_true, if_false] at hv
+      by_cases hr : x.kind = .replace
+      · simp [hr] at hv
+        subst hv; exact hx'
+      · have : (x.kind == VKind.replace) = false := by simpa using hr
+        simp only [this, Bool.false_eq_true, if_false] at hv
+        rcases List.mem_cons.mp hv with rfl | hv
+        · exact hx'
+        · exact ih v hv
+
+/-- the retained versions are the ones newer than the newest barrier (a replace included) -/
+theorem hRetainedGo_take : ∀ (l : List HVer) (j0 : Nat),
+    hRetainedGo l = match newestBarrier l j0 with
+      | some (j, true) => l.take (j - j0)
+      | some (j, false) => l.take (j - j0 + 1)
+      | none => l := by
+  intro l
+  induction l with
+  | nil => intro j0; rfl
+  | cons x xs ih =>
+    intro j0
+    simp only [hRetainedGo, newestBarrier]
+    by_cases hx : x.kind.isHard = true
+    · simp [hx]
+    · have hx' : x.kind.isHard = false := by simpa using hx
+      simp only [hx', Bool.false_eq_true, if_false]
+      by_cases hr : x.kind = .replace
+      · simp [hr]
+      · have hrb : (x.kind == VKind.replace) = false := by simpa using hr
+        simp only [hrb, Bool.false_eq_true, if_false]
+        rw [ih (j0 + 1)]
+        -- the barrier position found in the tail is at least j0 + 1
+        have hge : ∀ p, newestBarrier xs (j0 + 1) = some p → j0 + 1 ≤ p.1 := by
+          intro p hp
+          clear ih
+          induction xs generalizing j0 with
+          | nil => cases hp
+          | cons y ys ih2 =>
+            simp only [newestBarrier] at hp
+            split at hp
+            · cases hp; exact Nat.le_refl _
+            · split at hp
+              · cases hp; exact Nat.le_refl _
+              · have := ih2 (j0 + 1) hp; omega
+        cases hnb : newestBarrier xs (j0 + 1) with
+        | none => rfl
+        | some p =>
+          obtain ⟨j, b⟩ := p
+          have := hge (j, b) hnb
+          simp only at this
+          cases b with
+          | true =>
+            simp only
+            have : j - j0 = (j - (j0 + 1)) + 1 := by omega
+            rw [this, List.take_succ_cons]
+          | false =>
+            simp only
+            have : j - j0 + 1 = (j - (j0 + 1) + 1) + 1 := by omega
+            rw [this, List.take_succ_cons]
+
+theorem newestBarrier_lt : ∀ (l : List HVer) (j0 : Nat) (p : Nat × Bool), newestBarrier l j0 = some p →
+    j0 ≤ p.1 ∧ p.1 < j0 + l.length := by
+  intro l
+  induction l with
+  | nil => intro j0 p hp; cases hp
+  | cons x xs ih =>
+    intro j0 p hp
+    simp only [newestBarrier] at hp
+    split at hp
+    · cases hp; simp
+    · split at hp
+      · cases hp; simp
+      · have := ih (j0 + 1) p hp
+        simp only [List.length_cons]; omega
+
+/-- **the backward scan of one key lists the retained versions, oldest first** -/
+theorem histKeyBwd_eq_spec (tombs : Bool) (snap : Nat) (vs : List HVer) :
+    histKeyBwd tombs none snap vs = (specKey { tombs := tombs, range := none } snap vs).reverse := by
+  unfold histKeyBwd specKey
+  have hfilt : vs.reverse.filter (fun v => decide (v.seq ≤ snap)) =
+      (vs.filter (fun v => decide (v.seq ≤ snap))).reverse := by
+    rw [List.filter_reverse]
+  simp only [hfilt, List.reverse_reverse, List.length_reverse]
+  generalize vs.filter (fun v => decide (v.seq ≤ snap)) = vis
+  have hopt : ∀ v : HVer, ((tombs || !v.kind.isTomb) && inRangeTs { tombs := tombs, range := none } v) =
+      (tombs || !v.kind.isTomb) := by intro v; simp [inRangeTs]
+  cases vis with
+  | nil => simp [hRetained]
+  | cons v rest =>
+    have hlast : (v :: rest).reverse.getLast? = some v := by simp
+    simp only [hlast, hRetained]
+    by_cases hv : v.kind.isHard = true
+    · simp [hv]
+    · have hv' : v.kind.isHard = false := by simpa using hv
+      simp only [hv', Bool.false_eq_true, if_false]
+      -- what is dropped from the oldest end is what the barrier cuts off
+      have key : ((v :: rest).reverse.drop (bwdStart (v :: rest).length (newestBarrier (v :: rest) 0))) =
+          (hRetainedGo (v :: rest)).reverse := by
+        rw [hRetainedGo_take (v :: rest) 0]
+        cases hnb : newestBarrier (v :: rest) 0 with
+        | none => simp [bwdStart]
+        | some p =>
+          obtain ⟨j, b⟩ := p
+          have hlt := (newestBarrier_lt (v :: rest) 0 (j, b) hnb).2
+          simp only [Nat.zero_add] at hlt
+          cases b with
+          | true =>
+            simp only [Nat.sub_zero, bwdStart]
+            rw [List.drop_reverse]
+            congr 2
+            omega
+          | false =>
+            simp only [Nat.sub_zero, bwdStart]
+            rw [List.drop_reverse]
+            congr 2
+            omega
+      rw [key, List.filter_reverse]
+      congr 1
+      apply List.filter_congr
+      intro x hx
+      rw [hopt x, hRetainedGo_noHard _ x hx]
+      simp [inRangeOpt]
+
+theorem reverse_flatMap' {α β : Type} (l : List α) (g : α → List β) :
+    (l.flatMap g).reverse = l.reverse.flatMap (fun x => (g x).reverse) := by
+  induction l with
+  | nil => rfl
+  | cons x xs ih => simp [List.flatMap_cons, List.flatMap_append, ih]
+
+/-- **the backward scan is the forward listing read from the other end** (before the limit is applied) -/
+theorem flatMap_congr' {α β : Type} (l : List α) (f g : α → List β) (h : ∀ x ∈ l, f x = g x) :
+    l.flatMap f = l.flatMap g := by
+  induction l with
+  | nil => rfl
+  | cons x xs ih =>
+    simp only [List.flatMap_cons]
+    rw [h x List.mem_cons_self, ih (fun y hy => h y (List.mem_cons_of_mem _ hy))]
+
+theorem histBwd_eq_spec (o : HOpts) (hr : o.range = none) (snap : Nat) (keys : List (Nat × List HVer)) :
+    histBwd o snap keys =
+      applyLimit o ((keys.flatMap (fun kv => (specKey o snap kv.2).map (fun v => (kv.1, v)))).reverse) := by
+  unfold histBwd
+  congr 1
+  rw [reverse_flatMap']
+  apply flatMap_congr'
+  intro kv _
+  rw [hr, histKeyBwd_eq_spec, List.map_reverse]
+  congr 2
+  -- specKey does not look at the limit
+  unfold specKey inRangeTs
+  rw [hr]
+
+/-- versions of one key as the merge delivers them, some of them twice in a row -/
+def withCopies (twice : HVer → Bool) (l : List HVer) : List HVer :=
+  l.flatMap (fun v => if twice v then [v, v] else [v])
+
+theorem dedupAdj_withCopies (twice : HVer → Bool) : ∀ (l : List HVer),
+    l.Pairwise (fun a b => a.seq ≠ b.seq) → dedupAdj (withCopies twice l) = l := by
+  intro l
+  induction l with
+  | nil => intro _; rfl
+  | cons x xs ih =>
+    intro h
+    rw [List.pairwise_cons] at h
+    have ih' := ih h.2
+    unfold withCopies at ih' ⊢
+    simp only [List.flatMap_cons]
+    -- what follows x's copies starts with a version of another sequence number (or is empty)
+    cases xs with
+    | nil =>
+      simp only [List.flatMap_nil, List.append_nil]
+      by_cases ht : twice x = true
+      · simp [ht, dedupAdj]
+      · simp [ht, dedupAdj]
+    | cons y ys =>
+      have hxy : x.seq ≠ y.seq := h.1 y List.mem_cons_self
+      simp only [List.flatMap_cons] at ih' ⊢
+      -- the head of the rest is y in both cases
+      have hhead : ∃ tl, ((if twice y = true then [y, y] else [y]) ++ List.flatMap (fun v => if twice v = true then [v, v] else [v]) ys) = y :: tl := by
+        by_cases hy : twice y = true
+        · exact ⟨y :: List.flatMap (fun v => if twice v = true then [v, v] else [v]) ys, by simp [hy]⟩
+        · exact ⟨List.flatMap (fun v => if twice v = true then [v, v] else [v]) ys, by simp [hy]⟩
+      obtain ⟨tl, htl⟩ := hhead
+      rw [htl] at ih' ⊢
+      by_cases ht : twice x = true
+      · simp only [ht, if_true, List.cons_append, List.nil_append]
+        rw [dedupAdj]
+        simp only [and_self, if_true]
+        rw [dedupAdj]
+        rw [if_neg (by intro hh; exact hxy hh.1), ih']
+      · simp only [ht, Bool.false_eq_true, if_false, List.cons_append, List.nil_append]
+        rw [dedupAdj]
+        rw [if_neg (by intro hh; exact hxy hh.1), ih']
